@@ -21,6 +21,8 @@ CONSTANT Conform
 
 VARIABLES l, chunk, got, hi,
           nres,   \* results (Alloc/Fail) consumed in this scenario
+          conf,   \* model conformance is checked for this scenario (Conform, gated, and the
+                  \* scenario's chunk size is the one Stor is instantiated with = Log[1].chunk)
           pc, size, nchunks, allocChunk, lock, allocs, fails, n, ac, newsize, nch, tries, todo
 
 MaxProcs == 8
@@ -29,7 +31,7 @@ S == INSTANCE Stor WITH Procs <- 1..MaxProcs, ChunkSize <- Log[1].chunk,
                         InitSizes <- 0..Log[1].chunk, MaxRetries <- 3, Dev <- "none"
 
 svars == <<pc, size, nchunks, allocChunk, lock, allocs, fails, n, ac, newsize, nch, tries, todo>>
-tvars == <<l, chunk, got, hi, nres, svars>>
+tvars == <<l, chunk, got, hi, nres, conf, svars>>
 
 Ev == Log[l]
 IsEvent(e) == l <= NLog /\ Ev.e = e /\ l' = l + 1
@@ -46,24 +48,23 @@ ModelInit(sz) ==
     /\ pc' = [p \in 1..MaxProcs |-> "enter"]
 
 TraceInit ==
-    /\ HWInit /\ l = 1 /\ chunk = 1 /\ got = {} /\ hi = 0 /\ nres = 0
+    /\ HWInit /\ l = 1 /\ chunk = 1 /\ got = {} /\ hi = 0 /\ nres = 0 /\ conf = FALSE
     /\ S!Init /\ size = 0
 
-TrReset == IsEvent("Reset") /\ UNCHANGED <<chunk, got, hi, nres, svars>>
+TrReset == IsEvent("Reset") /\ UNCHANGED <<chunk, got, hi, nres, conf, svars>>
 
 TrStart ==
     /\ IsEvent("Start")
     /\ Ev.chunk >= 1
     /\ chunk' = Ev.chunk /\ got' = {} /\ hi' = 0 /\ nres' = 0
-    /\ IF Conform /\ Ev.mode = "gated"
-       THEN Ev.chunk = Log[1].chunk /\ Ev.procs <= MaxProcs /\ ModelInit(Ev.init)
-       ELSE UNCHANGED svars
+    /\ conf' = (Conform /\ Ev.mode = "gated" /\ Ev.chunk = Log[1].chunk /\ Ev.procs <= MaxProcs)
+    /\ IF conf' THEN ModelInit(Ev.init) ELSE UNCHANGED svars
 
 \* one gate release = one atomic operation of goroutine p
 TrStep ==
     /\ IsEvent("Step")
-    /\ UNCHANGED <<chunk, got, hi, nres>>
-    /\ IF ~Conform THEN UNCHANGED svars
+    /\ UNCHANGED <<chunk, got, hi, nres, conf>>
+    /\ IF ~conf THEN UNCHANGED svars
        ELSE /\ pc[Ev.p] = Ev.at                       \* parked exactly where the model is
             /\ IF Ev.at = "enter" /\ Ev.n = 0
                THEN UNCHANGED svars                    \* the goroutine has no more work
@@ -83,20 +84,20 @@ TrAlloc ==
     /\ \A g \in got : ~S!Overlap(Ev.off, Ev.len, g.off, g.n)
     /\ got' = got \cup {[off |-> Ev.off, n |-> Ev.len]}
     /\ nres' = nres + 1
-    /\ Conform =>
+    /\ conf =>
          /\ nres' = Cardinality(allocs) + Cardinality(fails)
          /\ \E x \in allocs : x.p = Ev.p /\ x.off = Ev.off /\ x.n = Ev.n
          /\ Ev.size = size
-    /\ UNCHANGED <<chunk, hi, svars>>
+    /\ UNCHANGED <<chunk, hi, conf, svars>>
 
 \* loud failure (panic): allowed by the property
 TrFail ==
     /\ IsEvent("Fail")
     /\ nres' = nres + 1
-    /\ Conform =>
+    /\ conf =>
          /\ nres' = Cardinality(allocs) + Cardinality(fails)
          /\ \E f \in fails : f.p = Ev.p /\ f.why = "retries"
-    /\ UNCHANGED <<chunk, got, hi, svars>>
+    /\ UNCHANGED <<chunk, got, hi, conf, svars>>
 
 \* free-running stress: results sorted by offset, so disjointness from ALL other
 \* ranges is "starts at or after the highest end so far"
@@ -106,15 +107,15 @@ TrRet ==
     /\ RangeOK(Ev.off, Ev.len, Ev.size)
     /\ Ev.off >= hi
     /\ hi' = Ev.off + Ev.len
-    /\ UNCHANGED <<chunk, got, nres, svars>>
+    /\ UNCHANGED <<chunk, got, nres, conf, svars>>
 
 TrDone ==
     /\ IsEvent("Done")
     /\ \A g \in got : S!Within(g.off, g.n, Ev.size)
     /\ hi <= Ev.size
     /\ Ev.bad = 0                                  \* every returned slice intact and = Data(off)
-    /\ (Conform /\ nres > 0) => Ev.size = size
-    /\ UNCHANGED <<chunk, got, hi, nres, svars>>
+    /\ conf => Ev.size = size
+    /\ UNCHANGED <<chunk, got, hi, nres, conf, svars>>
 
 \* "Stall" (an Alloc that neither returned nor failed, reproduced) has no action
 
